@@ -416,12 +416,9 @@ func C14(tier string) int {
 					}
 				}
 				setLabel := fmt.Sprintf("%q", E)
-				_ = w.db.Update(nil, func(ctx boltz.MutateContext) error {
-					if err := w.populate(ctx, E); err != nil {
-						rep.Violation("C14|populate|"+setLabel, "cannot build the data for set "+setLabel+": "+err.Error(), nil)
-						return errSkip
-					}
-					tx := ctx.Tx()
+				// every (set, kind, script) runs twice: inside the transaction that wrote the set (dirty
+				// nodes) and in a read transaction after the commit (committed pages)
+				runAll := func(tx *bbolt.Tx, mode string) {
 					for _, k := range w.kinds(E) {
 						elems := k.elements(E)
 						for _, sc := range scripts {
@@ -508,13 +505,36 @@ func C14(tier string) int {
 									class += "-after-seek"
 								}
 								sig := fmt.Sprintf("C14|%s|%s", k.name, class)
-								rep.Violation(sig, fmt.Sprintf("%s over set %s: %s", k.name, setLabel, problem), map[string]interface{}{"kind": k.name, "set": E, "script": trace})
+								rep.Violation(sig, fmt.Sprintf("%s over set %s [%s]: %s", k.name, setLabel, mode, problem), map[string]interface{}{"kind": k.name, "set": E, "script": trace, "pages": mode})
 							}
 						}
 						rep.Outcome(k.name)
 					}
+				}
+				_ = w.db.Update(nil, func(ctx boltz.MutateContext) error {
+					if err := w.populate(ctx, E); err != nil {
+						rep.Violation("C14|populate|"+setLabel, "cannot build the data for set "+setLabel+": "+err.Error(), nil)
+						return errSkip
+					}
+					runAll(ctx.Tx(), "uncommitted")
 					return errSkip
 				})
+				if err := w.db.Update(nil, func(ctx boltz.MutateContext) error { return w.populate(ctx, E) }); err != nil {
+					rep.Violation("C14|populate-committed|"+setLabel, "cannot build and commit the data for set "+setLabel+": "+err.Error(), nil)
+				} else {
+					_ = w.db.View(func(tx *bbolt.Tx) error { runAll(tx, "committed"); return nil })
+				}
+				if err := w.db.Update(nil, func(ctx boltz.MutateContext) error {
+					if err := ctx.Tx().DeleteBucket([]byte("root")); err != nil && err != bbolt.ErrBucketNotFound {
+						return err
+					}
+					h := &errorz.ErrorHolderImpl{}
+					w.hub.InitializeIndexes(ctx.Tx(), h)
+					w.items.InitializeIndexes(ctx.Tx(), h)
+					return h.GetError()
+				}); err != nil {
+					rep.Violation("C14|reset|"+setLabel, "cannot reset the database: "+err.Error(), nil)
+				}
 				if mask == 21 {
 					rep.Sample(map[string]interface{}{"set": E, "script": []string{"Seek(\"aa\")", "Next", "Seek(\"\")"}})
 				}
